@@ -12,7 +12,13 @@ Three exhaustive sub-explorations (product bounds):
           exp cone is left; the ORIGINAL formula object is unchanged (deep snapshot before / after).
   hist  : atom x front end x interface.  soc_solve() followed by solve() / do_math() / a second soc_solve():
           same answers as on fresh models, cached primal unchanged.
+  cuts  : call histories on ONE unchanged model: every ordered pair (thorough: triple) of calls over
+          {degree 4, 6} x {cuts default (-30,60), narrow (-2,2), wide (-60,120)}, made through soc_solve() or through
+          do_math().to_socp() + the interface, on models whose optimal exponent (+-3) lies outside the narrow range
+          but inside the default one.  Every call must return what a FRESH model returns for the same (degree,
+          cuts), and meet the accuracy bound whenever the cuts contain the exponent.
 """
+import itertools
 import math
 
 PROPERTY = 'C18'
@@ -25,7 +31,9 @@ RULE = ('acc: 8 atoms {exp,log,entropy,kldiv,softplus,pexp,plog,expcone} x 13 ex
         'variable: Gurobi only), degrees {4,5,6,8} inside the case; non-trivial = exact '
         'ECOS optimum agrees with the closed form (1e-5) and every soc_solve of the case returned an optimum that '
         'differs from the exact value (the approximation is really in the loop) ; carry: 8 atoms x contexts x '
-        'degrees; hist: 8 atoms x {ro,dro} x {ECOS,Gurobi} x 3 histories')
+        'degrees; hist: 8 atoms x {ro,dro} x {ECOS,Gurobi} x 3 histories; cuts: 5 models x {ECOS,Gurobi} x '
+        '{soc_solve, to_socp} x all ordered pairs (thorough: triples) of 6 (degree, cuts) configurations, non-trivial '
+        'when the fresh answers of the configurations in the history differ (the narrow cut really binds)')
 ASSUMPTIONS = [
     'the exponent of each cone is pinned by equality rows, so the closed form of the optimum is exact',
     'accuracy bound 1e-3 relative to the summed magnitude of the cone-defined objective terms (the signed sum may '
@@ -49,6 +57,8 @@ DEG_Q = [4, 5, 6, 8]
 CONTEXTS = ['solo', 'first3', 'mid3', 'last3', 'soc', 'bounds', 'int', 'allc', 'all']
 INT_CONTEXTS = ('int', 'all')     # contain an integer variable: SOC interface Gurobi only (ECOS_BB is not trusted)
 CONCAVE = ('log', 'entropy', 'plog')
+CUT_MODELS = ['exp_hi', 'exp_lo', 'log_hi', 'pexp_hi', 'dro_exp_hi']
+CUTS = {'default': (-30, 60), 'narrow': (-2, 2), 'wide': (-60, 120)}
 
 
 def gen_cases(tier, seed):
@@ -56,6 +66,13 @@ def gen_cases(tier, seed):
     degs = DEG_Q + ([7, 10, 12] if thorough else [])
     ctx_q = CONTEXTS if thorough else ['solo', 'mid3', 'last3', 'soc', 'bounds', 'int', 'allc', 'all']
     # hist and carry first: few and cheap
+    cfgs = [[d, c] for d in (4, 6) for c in ('default', 'narrow', 'wide')]
+    for mk in CUT_MODELS:
+        for iface in ('eco', 'grb'):
+            for how in ('soc_solve', 'to_socp'):
+                for n in ((2, 3) if thorough else (2,)):
+                    for seq in itertools.product(cfgs, repeat=n):
+                        yield {'kind': 'cuts', 'model': mk, 'iface': iface, 'how': how, 'seq': [list(c) for c in seq]}
     for atom in ATOMS:
         for fe in ('ro', 'dro'):
             for iface in ('eco', 'grb'):
@@ -529,8 +546,108 @@ def run_hist(case):
     return {'status': 'pass', 'ops': ops, 'nontrivial': True, 'outcome': 'hist ok'}
 
 
+def build_cut_model(mk):
+    """Models whose exponent is chosen by the optimisation (not pinned): +3 / -3 at the exact optimum."""
+    rso = _rs['rso']
+    m = _rs['dro'].Model(1) if mk.startswith('dro_') else _rs['ro'].Model()
+    x = m.dvar()
+    y = m.dvar()
+    if mk in ('exp_hi', 'dro_exp_hi'):
+        m.max(x)
+        m.st(rso.exp(x) <= y, y <= math.exp(3.0))
+        exact = 3.0
+    elif mk == 'exp_lo':
+        m.min(100 * y + x)                    # 100 e^x + x is minimal at x = -log(100) < -3: the bound x >= -3 binds
+        m.st(rso.exp(x) <= y, x >= -3.0)
+        exact = 100 * math.exp(-3.0) - 3.0
+    elif mk == 'log_hi':
+        m.max(x)
+        m.st(rso.log(y) >= x, y <= math.exp(3.0))
+        exact = 3.0
+    elif mk == 'pexp_hi':
+        s_ = m.dvar()
+        m.max(x)
+        m.st(rso.pexp(x, s_) <= y, y <= 1.5 * math.exp(3.0), s_ == 1.5)    # 1.5 exp(x/1.5) <= 1.5 e^3: x/s = 3
+        m.st(x <= 6)
+        exact = 4.5
+    else:
+        raise ValueError(mk)
+    return m, exact
+
+
+def _cut_call(m, iface, how, degree, cuts):
+    """One call on model m -> (verdict, user-sense value)."""
+    import numpy as np
+    if how == 'soc_solve':
+        m.soc_solve(_solver(iface), degree=degree, cuts=cuts, display=False, params=_params(iface, degree))
+        vd = _verdict(m, iface)
+        return vd, (float(m.get()) if vd == 'optimal' else float('nan'))
+    g = m.do_math().to_socp(degree, cuts)
+    sol = _solver(iface).solve(g, display=False, params=_params(iface, degree))
+    st = str(sol.status)
+    ok = sol.x is not None and not np.isnan(sol.objval) and (st.startswith('Optimal') if iface == 'eco' else st == '2')
+    if ok:
+        return 'optimal', float(m.sign * sol.objval)
+    if iface == 'eco':
+        return ('infeasible' if st.startswith('Primal inf') else 'unbounded' if st.startswith('Dual inf')
+                else 'other'), float('nan')
+    return {'3': 'infeasible', '5': 'unbounded'}.get(st, 'other'), float('nan')
+
+
+_cutref = {}
+
+
+def run_cuts(case):
+    mk, iface, how, seq = case['model'], case['iface'], case['how'], case['seq']
+    tag = 'cuts|%s|%s|%s' % (mk, iface, how)
+    refs = []
+    for d, c in seq:
+        key = (mk, iface, how, d, c)
+        if key not in _cutref:
+            mf, exact = build_cut_model(mk)
+            try:
+                _cutref[key] = _cut_call(mf, iface, how, d, CUTS[c]) + (exact,)
+            except Exception as ex:  # noqa
+                _cutref[key] = ('raises ' + type(ex).__name__, float('nan'), exact)
+        refs.append(_cutref[key])
+    m, exact = build_cut_model(mk)
+    ops = 6
+    label = ','.join('%d/%s' % (d, c) for d, c in seq)
+    for k, ((d, c), (rv, rval, _)) in enumerate(zip(seq, refs)):
+        ops += 1
+        try:
+            vd, val = _cut_call(m, iface, how, d, CUTS[c])
+        except Exception as ex:  # noqa
+            vd, val = 'raises ' + type(ex).__name__, float('nan')
+        if rv == 'other' or vd == 'other':
+            continue                     # an inaccurate solve on either side is inconclusive
+        earlier = sorted(set('%s' % cc for _, cc in seq[:k]))
+        ctx = 'call %d (cuts %s) after cuts %s' % (k, c, '+'.join(earlier) or 'none')
+        if vd != rv:
+            return {'status': 'violation', 'ops': ops, 'sig': '%s|%s: %s where a fresh model is %s' % (tag, ctx, vd, rv),
+                    'detail': 'history %s' % label}
+        if vd == 'optimal':
+            tol = (2e-4 if iface == 'grb' else 2e-5) * (1 + abs(rval))
+            if abs(val - rval) > tol:
+                return {'status': 'violation', 'ops': ops,
+                        'sig': '%s|%s: answer differs from a fresh model with the same degree and cuts' % (tag, ctx),
+                        'detail': 'history %s: %.9g, fresh %.9g' % (label, val, rval)}
+            if c != 'narrow' and abs(val - exact) > 1e-3 * abs(exact) + 2e-4:
+                return {'status': 'violation', 'ops': ops, 'sig': '%s|%s: accuracy' % (tag, ctx),
+                        'detail': 'history %s: %.9g, exact %.9g' % (label, val, exact)}
+    vals = [r[1] for r in refs if r[0] == 'optimal']
+    kinds = sorted(set(r[0] for r in refs))
+    spread = (max(vals) - min(vals)) if len(vals) >= 2 else 0.0
+    binds = spread > 1e-2 or len(kinds) > 1
+    return {'status': 'pass', 'ops': ops, 'nontrivial': bool(binds), 'states': len(seq) + 1, 'validated': len(seq),
+            'outcome': 'cuts ok %s %s fresh=%s %s' % (iface, how, '/'.join(kinds),
+                                                      'narrow cut binds' if binds else 'same answer for all configs')}
+
+
 def run_case(case):
     k = case['kind']
+    if k == 'cuts':
+        return run_cuts(case)
     if k == 'acc':
         return run_acc(case)
     if k == 'carry':
